@@ -698,7 +698,9 @@ func run(c Case, o *lib.Obs) error {
 	o.LabelIf(!c.ErrMap, "map")
 	o.LabelIf(c.Shards == 1, "one_shard")
 	nontrivial, sawWaiter, sawOverlap := false, false, false
-	for n := 0; n < runs; n++ {
+	// A busy machine rarely runs the goroutines of one execution in parallel: keep executing (up to 4x)
+	// until some execution had overlapping operations on a key. This only adds executions.
+	for n := 0; n < runs || (!sawOverlap && n < 4*runs); n++ {
 		res := execute(c)
 		if res.inconcl != "" {
 			return &lib.Inconclusive{Msg: res.inconcl}
